@@ -560,6 +560,16 @@ func genCtrlCase(rng *Rng, mode string, cmdOK bool) (ctrlIn, []string) {
 		}
 	}
 	stallFrom := rng.Range(0, n)
+	if mode == "recover" { // stall at a low curve value (raises), then the fan recovers and the curve goes to extremes
+		in.NeverStop, in.HasRpm = true, true
+		if in.Alg == "pid" && rng.Bool() {
+			in.Alg = "direct"
+		}
+		n = rng.Range(8, 40)
+		stallFrom = 0
+	}
+	recoverAt := n / 2
+	lowCurve := rng.Range(0, 40)
 	for i := 0; i < n; i++ {
 		// optional interference
 		if mode == "ext" && rng.Chance(1, 4) {
@@ -574,12 +584,16 @@ func genCtrlCase(rng *Rng, mode string, cmdOK bool) (ctrlIn, []string) {
 		}
 		if in.HasRpm {
 			np := rng.Range(0, 3)
-			if mode == "stall" {
+			if mode == "stall" || mode == "recover" {
 				np = rng.Range(1, 3)
 			}
 			for j := 0; j < np; j++ {
 				var rpm *int
 				switch {
+				case mode == "recover" && i < recoverAt:
+					rpm = ctrlPtr(0)
+				case mode == "recover":
+					rpm = ctrlPtr(rng.Range(500, 3000))
 				case mode == "stall" && i >= stallFrom:
 					rpm = ctrlPtr(0)
 				case rng.Chance(1, 25):
@@ -593,7 +607,14 @@ func genCtrlCase(rng *Rng, mode string, cmdOK bool) (ctrlIn, []string) {
 			}
 		}
 		e := ctrlEv{T: "cycle", Dt: ctrlGenDt(rng), ReadOk: true, WriteOk: true, ModeOk: true}
-		if constCurve >= 0 {
+		if mode == "recover" {
+			if i < recoverAt {
+				e.Curve = ctrlPtr(lowCurve)
+			} else {
+				e.Curve = ctrlPtr([]int{255, 255, 300, 254, 0, 128, rng.Range(0, 255)}[rng.Intn(7)])
+			}
+			e.Dt = int64(rng.Range(50, 2000)) * 1e6
+		} else if constCurve >= 0 {
 			e.Curve = ctrlPtr(constCurve)
 		} else {
 			e.Curve = ctrlPtr(ctrlGenCurveVal(rng))
@@ -675,7 +696,7 @@ func init() {
 		n := ctx.Param("n", 600)
 		modes := strings.Split(ctx.Params["modes"], ",")
 		if ctx.Params["modes"] == "" {
-			modes = []string{"random", "stall", "const", "ext", "fault"}
+			modes = []string{"random", "stall", "const", "ext", "fault", "recover"}
 		}
 		cmdEvery := ctx.Param("cmd", 1)
 		for i := 0; i < n; i++ {
